@@ -236,3 +236,205 @@ def c02(res, tier, seed, replay):
                             "is evaluated on a real shard after write batches that change, add and remove indexed fields; TLC "
                             "recomputes every answer from the model state and requires set equality")
     res.assumptions += ["queries are restricted to those accepted by models.Query.Validate / ValidateSchema"]
+
+
+# --------------------------------------------------------------------------
+METRICS = ["euclidean", "dot", "cosine", "hamming", "jaccard", "haversine"]
+
+
+def rank_design(res, tier):
+    design_check(res, "RankMC", "RankMC.quick.cfg" if tier == "quick" else "RankMC.cfg")
+
+
+def mut_hit_distance(ev):
+    def mut(e):
+        if e["ev"] == ev and len(e.get("hits", [])) >= 1:
+            e["hits"][0]["d"] += 3
+            return True
+        return False
+    return mut
+
+
+def mut_drop_first_hit(ev):
+    def mut(e):
+        if e["ev"] == ev and len(e.get("hits", [])) >= 2 and e["hits"][0].get("d", e["hits"][0].get("s")) != \
+                e["hits"][-1].get("d", e["hits"][-1].get("s")):
+            e["hits"] = e["hits"][1:]
+            return True
+        return False
+    return mut
+
+
+@prop("C04", "model_checking")
+def c04(res, tier, seed, replay):
+    if replay:
+        replay_run(res, replay)
+        return
+    rank_design(res, tier)
+    hist, batches, rank, nseeds = (2, 10, 5, 1) if tier == "quick" else (8, 25, 8, 4)
+    runs = []
+    for s in range(nseeds):
+        for m in METRICS:
+            for cache, ctag in (CACHES if tier == "thorough" else CACHES[::2]):
+                runs.append({"name": f"flat-{m}-{ctag}-{s}",
+                             "args": ["-mode", "cache", "-config", f"flat-{m}", "-cache", cache, "-seed", seed * 100 + s,
+                                      "-hist", hist, "-batches", batches, "-rank", rank, "-panel-every", 0]})
+    results = drive_and_validate(res, runs)
+    for r in results[:2]:
+        sample_from_trace_nonempty(res, r["trace"], "Flat", cap=2)
+    binding_selftest(res, results, mut_hit_distance("Flat"), what="reported distance of the first hit altered")
+    binding_selftest(res, results, mut_drop_first_hit("Flat"), what="nearest hit dropped from an answer")
+    res.coverage["rule"] = ("random write histories on flat indexes under all six metrics (integer-valued vectors so that "
+                            "distances are exact integers; unit vectors for cosine; haversine against a float64 reference "
+                            "table; jaccard within 2e-4); after every batch flat queries (limits 1..75, weights, no / id / leaf / "
+                            "tree pre-filters) are answered warm, after eviction and cold on a copy of the file; TLC requires "
+                            "each answer to be the exact k nearest (any tie-break) with the right distances and hybrid scores")
+    res.assumptions += ["product quantiser and learned binary thresholds are not exercised by this check",
+                        "cosine is judged on unit vectors only (the index computes 1 - dot)"]
+
+
+def sample_from_trace_nonempty(res, path, ev, cap=2):
+    n = 0
+    with open(path) as f:
+        for line in f:
+            if f'"ev":"{ev}"' in line:
+                e = json.loads(line)
+                if e.get("hits") or e.get("ids") or e.get("nodes"):
+                    res.sample(summarize_event(line, 600))
+                    n += 1
+                    if n >= cap:
+                        return
+
+
+@prop("C05", "model_checking")
+def c05(res, tier, seed, replay):
+    if replay:
+        replay_run(res, replay)
+        return
+    rank_design(res, tier)
+    hist, batches, rank, nseeds = (3, 14, 8, 2) if tier == "quick" else (10, 30, 12, 6)
+    runs = []
+    for s in range(nseeds):
+        for cache, ctag in CACHES[:2]:
+            runs.append({"name": f"text-{ctag}-{s}",
+                         "args": ["-mode", "cache", "-config", "text", "-cache", cache, "-seed", seed * 100 + s,
+                                  "-hist", hist, "-batches", batches, "-rank", rank, "-panel-every", 0]})
+        runs.append({"name": f"text-mem-{s}",
+                     "args": ["-mode", "rank", "-config", "text", "-mem", "-seed", seed * 100 + 40 + s,
+                              "-hist", hist, "-batches", batches, "-rank", rank]})
+    results = drive_and_validate(res, runs)
+    for r in results[:2]:
+        sample_from_trace_nonempty(res, r["trace"], "Text", cap=2)
+
+    def mut(e):
+        if e["ev"] == "Text" and e["hits"]:
+            e["hits"][0]["s"] += 40
+            e["hits"][0]["h4"] += 40 * e["w4"]
+            return True
+        return False
+    binding_selftest(res, results, mut, what="tf-idf score of the first hit altered by 4e-4")
+    binding_selftest(res, results, mut_drop_first_hit("Text"), what="best hit dropped from an answer")
+    res.coverage["rule"] = ("histories that insert, rewrite, blank out (stop words / punctuation only) and delete two text fields "
+                            "(one nested); queries multi-term, repeated-term, mixed case, unicode, unknown terms, both operators, "
+                            "limits 1..75, weights, pre-filters; token multisets from bleve's standard analyser; TLC recomputes match "
+                            "set, corpus size, document frequencies and scaled-integer tf-idf and checks order and the top-limit cut")
+    res.assumptions += ["scores compared within 8e-5 absolute (float32 arithmetic vs scaled integers)",
+                        "queries that analyse to zero terms are only required not to fail"]
+
+
+@prop("C03", "model_checking")
+def c03(res, tier, seed, replay):
+    if replay:
+        replay_run(res, replay)
+        return
+    rank_design(res, tier)
+    runs = []
+    nseeds = 1 if tier == "quick" else 4
+    for s in range(nseeds):
+        for m in METRICS:
+            # small universes: exact regimes (insert-only / small filters) and mixed histories
+            runs.append({"name": f"vam-io-{m}-{s}",
+                         "args": ["-mode", "rank", "-config", f"vamana-{m}", "-insert-only", "-seed", seed * 100 + s,
+                                  "-hist", 3 if tier == "quick" else 10, "-batches", 6, "-rank", 8]})
+            runs.append({"name": f"vam-mix-{m}-{s}",
+                         "args": ["-mode", "rank", "-config", f"vamana-{m}", "-seed", seed * 100 + 20 + s,
+                                  "-hist", 2 if tier == "quick" else 8, "-batches", 14 if tier == "quick" else 30, "-rank", 6]})
+        # larger graphs: soundness (never dead / out-of-filter / duplicate / entry node, right distances, order)
+        for m in (["euclidean", "hamming"] if tier == "quick" else METRICS[:5]):
+            runs.append({"name": f"vam-big-{m}-{s}",
+                         "args": ["-mode", "rank", "-config", f"vamana-{m}", "-nids", 150 if tier == "quick" else 400,
+                                  "-maxbatch", 50, "-seed", seed * 100 + 60 + s, "-hist", 1 if tier == "quick" else 3,
+                                  "-batches", 25 if tier == "quick" else 60, "-rank", 6]})
+    results = drive_and_validate(res, runs)
+    for r in results[:2]:
+        sample_from_trace_nonempty(res, r["trace"], "Vamana", cap=2)
+    binding_selftest(res, results, mut_hit_distance("Vamana"), what="reported distance of the first hit altered")
+
+    def mut(e):
+        if e["ev"] == "Vamana" and e["exact"] == 1 and len(e["hits"]) >= 2 and e["hits"][0]["d"] != e["hits"][-1]["d"]:
+            e["hits"] = e["hits"][1:]
+            return True
+        return False
+    binding_selftest(res, results, mut, what="nearest hit dropped from an exact-regime answer")
+    ex = 0
+    tot = 0
+    for r in results:
+        if os.path.exists(r["trace"]):
+            with open(r["trace"]) as f:
+                for line in f:
+                    if '"ev":"Vamana"' in line:
+                        tot += 1
+                        if '"exact":1' in line:
+                            ex += 1
+    res.coverage["vamana_queries"] = tot
+    res.coverage["vamana_queries_in_exact_regime"] = ex
+    if ex == 0:
+        raise Inconclusive("no graph query fell into an exact regime (vacuous)")
+    res.coverage["rule"] = ("graph searches (limits 1..75, search sizes 25..75, weights, no / id / leaf / tree pre-filters) after "
+                            "histories with inserts, vector updates, vector removal, deletes and node-id reuse under all six "
+                            "metrics, on universes of 12 ids (exact regimes: insert-only history, or a pre-filter) and 150-400 ids "
+                            "(soundness: only live in-filter holders, no duplicate, no entry node, <= limit, distances right and "
+                            "non-decreasing, hybrid = -weight*distance); a search error on a quiescent shard is a violation")
+    res.assumptions += ["quantised distances (product / learned binary) are not exercised", "cosine judged on unit vectors"]
+
+
+@prop("C10", "model_checking")
+def c10(res, tier, seed, replay):
+    if replay:
+        replay_run(res, replay)
+        return
+    design_check(res, "ShardMC", "ShardMC.cfg")
+    runs = []
+    nseeds = 1 if tier == "quick" else 4
+    for s in range(nseeds):
+        for m, nids, mb, hist, batches in ([("euclidean", 12, 5, 4, 25), ("euclidean", 120, 40, 2, 30), ("hamming", 60, 20, 2, 25),
+                                            ("dot", 200, 64, 1, 30)] if tier == "quick" else
+                                           [("euclidean", 12, 5, 12, 40), ("euclidean", 150, 40, 6, 60), ("hamming", 80, 30, 6, 50),
+                                            ("dot", 400, 100, 3, 60), ("cosine", 40, 12, 6, 40), ("jaccard", 100, 30, 4, 50)]):
+            for cache, ctag in CACHES[:1] if tier == "quick" else CACHES:
+                runs.append({"name": f"graph-{m}-{nids}-{ctag}-{s}",
+                             "args": ["-mode", "graph", "-config", f"vamana-{m}", "-nids", nids, "-maxbatch", mb, "-cache", cache,
+                                      "-seed", seed * 100 + s, "-hist", hist, "-batches", batches, "-rank", 2]})
+    results = drive_and_validate(res, runs)
+    for r in results[1:2]:
+        sample_from_trace_nonempty(res, r["trace"], "Graph", cap=1)
+
+    def mut(e):
+        if e["ev"] == "Graph" and len(e["nodes"]) >= 3:
+            # an edge to a node that does not exist
+            e["nodes"][1][1] = e["nodes"][1][1] + [e["max"] + 5]
+            return True
+        return False
+    binding_selftest(res, results, mut, what="dangling edge added to the logged graph")
+
+    def mut2(e):
+        if e["ev"] == "Insert" and e["ok"] == 1 and len(e["P"]["nodes"]) >= 2:
+            e["P"]["nodes"][0][1] = e["P"]["nodes"][1][1]
+            return True
+        return False
+    binding_selftest(res, results, mut2, what="two live points given the same node id in the logged projection")
+    res.coverage["rule"] = ("after every write batch (insert / update / delete mixes, vector removal and re-addition, id reuse, "
+                            "batches up to 100 points, graphs up to 400 nodes, degree bound 32) the persisted graph, vector keys, "
+                            "recorded maximum node id, node-id table, free list and counters are dumped through hook H1 and TLC "
+                            "evaluates GraphWF and ShardWF on every line")
+    res.assumptions += ["degree bounds below 32 cannot be configured through validation and are not exercised"]
